@@ -10689,7 +10689,17 @@ func (p *parser) visitAndAppendStmt(stmts []js_ast.Stmt, stmt js_ast.Stmt) []js_
 		}
 
 		p.currentScope.Label = ast.LocRef{Loc: s.Name.Loc, Ref: ref}
-		switch s.Stmt.Data.(type) {
+
+		// All labels in "a: b: for (;;) {}" are labels of the loop
+		labeledStmt := s.Stmt
+		for {
+			if nested, ok := labeledStmt.Data.(*js_ast.SLabel); ok {
+				labeledStmt = nested.Stmt
+			} else {
+				break
+			}
+		}
+		switch labeledStmt.Data.(type) {
 		case *js_ast.SFor, *js_ast.SForIn, *js_ast.SForOf, *js_ast.SWhile, *js_ast.SDoWhile:
 			p.currentScope.LabelStmtIsLoop = true
 		}
